@@ -141,25 +141,49 @@ def jwe_kind_suitable(alg, encrypt, enc, k, s, epk):
 # key material (generated once per run, reused for every metadata variant)
 # ----------------------------------------------------------------------------------
 class Mats:
-    """materials: name -> (class, private native, public native)"""
+    """materials, generated on first use and reused for every metadata variant:
+    (kty, size-or-curve, tag) -> (private native, public native)"""
 
     def __init__(self, rng):
         from joserfc.jwk import OctKey, RSAKey, ECKey, OKPKey
         self.cls = {"oct": OctKey, "RSA": RSAKey, "EC": ECKey, "OKP": OKPKey}
+        self.rng = rng
         self.m = {}
-        for kty, p in KINDS:
-            for tag in ("a", "b"):          # two independent materials per kind
-                if kty == "oct":
-                    raw = bytes(rng.randrange(256) for _ in range(p // 8))
-                    self.m[(kty, p, tag)] = (raw, raw)
-                else:
-                    k = self.cls[kty].generate_key(p)
-                    self.m[(kty, p, tag)] = (k.private_key, k.public_key)
+        self.cache = {}
 
-    def key(self, kty, p, tag, private, params):
-        prv, pub = self.m[(kty, p, tag)]
-        nat = prv if (private or kty == "oct") else pub
-        return self.cls[kty](nat, nat, dict(params) if params else None)
+    def get(self, kty, p, tag):
+        if (kty, p, tag) not in self.m:
+            if kty == "oct":
+                raw = bytes(self.rng.randrange(256) for _ in range(p // 8))
+                self.m[(kty, p, tag)] = (raw, raw)
+            elif kty == "RSA":
+                # pyca directly: RSAKey.generate_key refuses sizes that are not a multiple of 8
+                from cryptography.hazmat.primitives.asymmetric import rsa
+                for _ in range(40):     # an odd size may come out one bit short: retry (the model sees key_size)
+                    prv = rsa.generate_private_key(65537, p)
+                    if prv.key_size == p:
+                        break
+                self.m[(kty, p, tag)] = (prv, prv.public_key())
+            else:
+                k = self.cls[kty].generate_key(p)
+                self.m[(kty, p, tag)] = (k.private_key, k.public_key)
+        return self.m[(kty, p, tag)]
+
+    def key(self, kty, p, tag, private, params, via="native"):
+        prv, pub = self.get(kty, p, tag)
+        private = private or kty == "oct"
+        nat = prv if private else pub
+        params = dict(params) if params else None
+        if via == "native" or kty == "oct":
+            return self.cls[kty](nat, nat, params)
+        ck = (kty, p, tag, private, json.dumps(params, sort_keys=True), via)
+        if ck not in self.cache:
+            base = self.cls[kty](nat, nat, None)
+            if via == "pem":
+                self.cache[ck] = self.cls[kty].import_key(base.as_pem(private=private), params)
+            else:
+                self.cache[ck] = self.cls[kty].import_key({**base.as_dict(private=private), **(params or {})})
+        return self.cache[ck]
 
 
 def key_info(key):
@@ -377,6 +401,14 @@ def jwe_token_kinds(alg, enc):
 # ----------------------------------------------------------------------------------
 # case descriptors
 # ----------------------------------------------------------------------------------
+RSA_BOUNDARY = [1024, 2040, 2041, 2047, 2048, 2049]    # around "at least 2048 bits" (bits, not octets)
+
+
+def boundary_octets(L):
+    """octet lengths around a required length L"""
+    return sorted({0, 1, L - 1, L, L + 1, 2 * L})
+
+
 def params_of(use, ops, kalg):
     p = {}
     if use is not None:
@@ -406,11 +438,11 @@ def gen_jws(ctx):
     rng = ctx.rng
     out = []
 
-    def add(entry, alg, kind, private, use, ops, kalg, src, tag="a", variant=None):
+    def add(entry, alg, kind, private, use, ops, kalg, src, tag="a", variant=None, must=False):
         if not consistent(use, ops):
             use = None
         out.append({"fam": "jws", "entry": entry, "alg": alg, "kind": list(kind), "private": private, "use": use,
-                    "ops": ops, "kalg": kalg, "src": src, "tag": tag, "variant": variant})
+                    "ops": ops, "kalg": kalg, "src": src, "tag": tag, "variant": variant, "must": must})
     for entry in JWS_ENTRIES:
         sign = entry in JWS_SIGN
         need = "sign" if sign else "verify"
@@ -434,7 +466,7 @@ def gen_jws(ctx):
             if alg in ES_CURVE:
                 for crv in ("P-256", "P-384", "P-521", "secp256k1"):
                     if crv != ES_CURVE[alg]:
-                        add(entry, alg, ("EC", crv), True, None, None, None, rng.choice(["SrcKey", "SrcSet"]))
+                        add(entry, alg, ("EC", crv), True, None, None, None, rng.choice(["SrcKey", "SrcSet"]), must=True)
                 add(entry, alg, ("OKP", rng.choice(["Ed25519", "X25519", "Ed448", "X448"])), True, None, None, None, "SrcKey")
                 if not sign:
                     add(entry, alg, good, True, None, ["sign"], None, "SrcKey", variant="cutsig")
@@ -467,12 +499,13 @@ def gen_jwe(ctx):
     out = []
     encs = list(ENC_CEK)
 
-    def add(entry, alg, enc, kind, private, use, ops, kalg, src, tag="a", sender=None, refkind=None):
+    def add(entry, alg, enc, kind, private, use, ops, kalg, src, tag="a", sender=None, refkind=None,
+            via="native", must=False):
         if not consistent(use, ops):
             use = None
         out.append({"fam": "jwe", "entry": entry, "alg": alg, "enc": enc, "kind": list(kind), "private": private,
                     "use": use, "ops": ops, "kalg": kalg, "src": src, "tag": tag, "sender": sender,
-                    "refkind": list(refkind) if refkind else None})
+                    "refkind": list(refkind) if refkind else None, "via": via, "must": must})
 
     def snd(kind, private=True, tag="b", use=None, ops=None):
         return {"kind": list(kind), "private": private, "tag": tag, "use": use, "ops": ops}
@@ -498,17 +531,23 @@ def gen_jwe(ctx):
             add(entry, alg, enc, good, True, None, None, None, "SrcKey" if entry in JWE_PRE else "SrcSet", sender=S())
             if not encrypt:
                 add(entry, alg, enc, good, True, None, None, None, "SrcKey", tag="b", sender=S())   # other material
-            # sizes
+            # sizes: the boundary of EVERY size gate (never thinned out)
             if fam in ("WRAP", "dir", "PBES2"):
                 for kind in [k for k in KINDS if k[0] == "oct" and k != good]:
                     add(entry, alg, enc, kind, True, None, None, None, src2())
+            if fam == "WRAP":
+                for n in boundary_octets(WRAP_SIZE[alg] // 8):
+                    add(entry, alg, enc, ("oct", 8 * n), True, None, None, None, src2(), must=True)
             if fam == "dir":
                 for e2 in encs:
-                    add(entry, alg, e2, ("oct", ENC_CEK[e2]), True, None, None, None, "SrcKey")
-                    add(entry, alg, e2, ("oct", 128 if ENC_CEK[e2] != 128 else 256), True, None, None, None, "SrcKey")
+                    for n in boundary_octets(ENC_CEK[e2] // 8):
+                        add(entry, alg, e2, ("oct", 8 * n), True, None, None, None, "SrcKey", must=True)
             if fam == "RSA":
-                add(entry, alg, enc, ("RSA", 1024), True, None, None, None, src2())
-                add(entry, alg, enc, ("RSA", 1024), False, None, [need], None, src2())
+                for bits in RSA_BOUNDARY:
+                    add(entry, alg, enc, ("RSA", bits), True, None, None, None, src2(),
+                        via=rng.choice(["native", "pem", "jwk"]), must=True)
+                    add(entry, alg, enc, ("RSA", bits), False, None, rng.choice([None, [need]]), None, src2(),
+                        via=rng.choice(["pem", "jwk"]), must=True)
             if fam in ("ES", "1PU"):
                 # both parties on one curve
                 for kind in [k for k in KINDS if k[0] in ("EC", "OKP")]:
@@ -558,6 +597,123 @@ def gen_jwe(ctx):
     return out
 
 
+MULTI_ALGS = ["RSA1_5", "RSA-OAEP", "RSA-OAEP-256", "A128KW", "A192KW", "A256KW", "A128GCMKW", "A192GCMKW", "A256GCMKW",
+              "PBES2-HS256+A128KW", "PBES2-HS384+A192KW", "PBES2-HS512+A256KW",
+              "ECDH-ES+A128KW", "ECDH-ES+A192KW", "ECDH-ES+A256KW"]
+ECDH_KINDS = [("EC", "P-256"), ("EC", "P-384"), ("EC", "P-521"), ("EC", "secp256k1"), ("OKP", "X25519"), ("OKP", "X448")]
+MULTI_GATES = ["use", "key_ops", "type", "size", "curve", "public"]
+
+
+def good_kind(alg, rng):
+    f = jwe_family(alg)
+    if f == "RSA":
+        return ("RSA", 2048)
+    if f == "WRAP":
+        return ("oct", WRAP_SIZE[alg])
+    if f == "PBES2":
+        return ("oct", rng.choice([128, 256, 512]))
+    return rng.choice(ECDH_KINDS)
+
+
+def gen_multi(ctx):
+    """general JSON with 2-4 recipients of mixed algorithms; exactly one recipient's key violates exactly one
+    gate, in each position; verify_all_recipients True / False; keys per kid via KeySet / callable / add_recipient"""
+    rng = ctx.rng
+    out = []
+
+    def compose(encrypt, gate, pos, va, src, variant=None):
+        n = rng.choice([2, 3, 4])
+        p = {"first": 0, "middle": n // 2 if n > 2 else 0, "last": n - 1}[pos]
+        with_1pu = rng.random() < 0.2
+        enc = rng.choice(["A128CBC-HS256", "A192CBC-HS384", "A256CBC-HS512"] if with_1pu else list(ENC_CEK))
+        algs = [rng.choice(MULTI_ALGS) for _ in range(n)]
+        if variant == "others-wrong-material":
+            algs = [a if a != "RSA1_5" else "RSA-OAEP" for a in algs]
+        one_pu = None
+        if with_1pu:
+            one_pu = rng.choice([i for i in range(n) if i != p] or [0]) if gate is not None else rng.randrange(n)
+            if one_pu == p and gate is not None:
+                one_pu = None
+            else:
+                algs[one_pu] = rng.choice(["ECDH-1PU+A128KW", "ECDH-1PU+A192KW", "ECDH-1PU+A256KW"])
+        # the offender's algorithm must have the gate
+        if gate == "key_ops":
+            algs[p] = rng.choice([a for a in MULTI_ALGS if jwe_op(a, encrypt)])
+        elif gate == "size":
+            algs[p] = rng.choice([a for a in MULTI_ALGS if jwe_family(a) == "WRAP" or (encrypt and jwe_family(a) == "RSA")])
+        elif gate in ("curve", "epk-type"):
+            algs[p] = rng.choice(["ECDH-ES+A128KW", "ECDH-ES+A192KW", "ECDH-ES+A256KW"])
+        elif gate == "public":
+            algs[p] = rng.choice(["RSA-OAEP", "RSA-OAEP-256", "RSA1_5", "ECDH-ES+A128KW", "ECDH-ES+A256KW"])
+        recs = []
+        for i, alg in enumerate(algs):
+            gk = good_kind(alg, rng)
+            r = {"alg": alg, "kind": list(gk), "refkind": list(gk), "tag": "a", "private": True, "use": None, "ops": None,
+                 "pre": (src == "pre"), "via": "native"}
+            if rng.random() < 0.3:
+                r["use"] = "enc"
+            if variant == "others-wrong-material" and i != p:
+                r["tag"] = "b"
+            if i == p and gate is not None:
+                if gate == "use":
+                    r["use"] = "sig"
+                elif gate == "key_ops":
+                    need = jwe_op(alg, encrypt)
+                    r["ops"] = rng.choice([[], [o for o in ALL_OPS if o != need]])
+                    r["use"] = None
+                elif gate == "type":
+                    # (decrypting with an EC key a token made for an OKP key, or the reverse, is a type error too:
+                    # the "epk" does not import, a ValueError that verify_all_recipients=False does not swallow)
+                    r["kind"] = list(rng.choice([k for k in KINDS if k[0] != gk[0] and
+                                                 not (encrypt and jwe_family(alg) in ("ES", "1PU") and k[0] in ("EC", "OKP"))]))
+                elif gate == "size":
+                    if jwe_family(alg) == "RSA":
+                        r["kind"] = ["RSA", rng.choice([1024, 2040, 2047])]
+                        r["via"] = rng.choice(["native", "pem", "jwk"])
+                    else:
+                        L = WRAP_SIZE[alg] // 8
+                        r["kind"] = ["oct", 8 * rng.choice([n_ for n_ in boundary_octets(L) if n_ != L])]
+                elif gate == "curve":
+                    if encrypt:
+                        r["kind"] = list(rng.choice([("OKP", "Ed25519"), ("OKP", "Ed448")]))
+                    else:
+                        r["kind"] = list(rng.choice([k for k in ECDH_KINDS if k[0] == gk[0] and k != gk] or
+                                                    [("OKP", "Ed25519")]))
+                elif gate == "epk-type":
+                    # an EC key for a token made for an OKP key (or the reverse): the "epk" does not import,
+                    # a ValueError, which verify_all_recipients=False does not swallow
+                    r["kind"] = list(rng.choice([k for k in ECDH_KINDS + [("OKP", "Ed25519")] if k[0] != gk[0]]))
+                elif gate == "public":
+                    r["private"] = False
+            recs.append(r)
+        sender = None
+        if one_pu is not None:
+            sk = recs[one_pu]["refkind"]
+            sender = {"kind": sk, "private": True if encrypt else rng.choice([True, False]), "tag": "b", "use": None, "ops": None}
+        if gate == "sender-use":
+            sk = recs[one_pu]["refkind"] if one_pu is not None else list(rng.choice(ECDH_KINDS))
+            sender = {"kind": sk, "private": True, "tag": "b", "use": "sig", "ops": None}
+        out.append({"fam": "jwem", "entry": "multi-enc" if encrypt else "multi-dec", "alg": "+".join(algs), "encrypt": encrypt,
+                    "va": va, "src": "SrcKid" if src == "pre" else src, "enc": enc, "recs": recs, "sender": sender,
+                    "gate": gate, "pos": pos, "variant": variant, "must": True})
+
+    reps = ctx.scale(1, 12)
+    for _ in range(reps):
+        for pos in ("first", "middle", "last"):
+            for gate in MULTI_GATES + ["sender-use", None]:
+                for src in ("SrcKid", "SrcCall", "pre"):
+                    if gate != "public":
+                        compose(True, gate, pos, True, src)
+                for src in ("SrcKid", "SrcCall"):
+                    for va in (True, False):
+                        compose(False, gate, pos, va, src)
+                        if gate == "curve":
+                            compose(False, "epk-type", pos, va, src)
+                    if gate in ("use", "key_ops", "public"):
+                        compose(False, gate, pos, False, src, variant="others-wrong-material")
+    return out
+
+
 # ----------------------------------------------------------------------------------
 # executing one descriptor against the implementation
 # ----------------------------------------------------------------------------------
@@ -567,7 +723,8 @@ class Runner:
         self.tokens = {}
 
     def test_key(self, d):
-        return self.mats.key(d["kind"][0], d["kind"][1], d["tag"], d["private"], params_of(d["use"], d["ops"], d["kalg"]))
+        return self.mats.key(d["kind"][0], d["kind"][1], d["tag"], d["private"], params_of(d["use"], d["ops"], d["kalg"]),
+                             d.get("via", "native"))
 
     def sender_key(self, s):
         if s is None:
@@ -658,6 +815,87 @@ class Runner:
         return out, exc, {"info": info, "sinfo": sinfo, "mat": mat, "epk": epk}
 
 
+    def run_multi(self, d):
+        from joserfc import jwe
+        from joserfc.jwe import GeneralJSONEncryption, JWERegistry
+        from joserfc.jwk import KeySet
+        enc, encrypt = d["enc"], d["encrypt"]
+        algs = [r["alg"] for r in d["recs"]] + [enc]
+        try:
+            keys, infos = [], []
+            for i, r in enumerate(d["recs"]):
+                prm = params_of(r["use"], r["ops"], None)
+                prm["kid"] = "r%d" % i
+                k = self.mats.key(r["kind"][0], r["kind"][1], r["tag"], r["private"], prm, r.get("via", "native"))
+                keys.append(k)
+                infos.append(key_info(k))
+            sender = self.sender_key(d["sender"])
+            sinfo = key_info(sender) if sender is not None else None
+        except ValueError:
+            return None
+        kidmap = {"r%d" % i: k for i, k in enumerate(keys)}
+        mats_ok, epks = [], []
+        for r in d["recs"]:
+            fam = jwe_family(r["alg"])
+            epks.append(tuple(r["refkind"]) if fam in ("ES", "1PU") else None)
+            m = r["kind"] == r["refkind"] and r["tag"] == "a"
+            if fam == "1PU":
+                sd = d["sender"]
+                m = m and sd is not None and sd["kind"] == r["refkind"] and sd["tag"] == "b"
+            mats_ok.append(m)
+        if d["src"] == "SrcCall":
+            keyarg = lambda o: kidmap[o.headers()["kid"]]      # noqa
+        else:
+            keyarg = KeySet(list(keys))
+        if encrypt:
+            def f():
+                obj = GeneralJSONEncryption({"enc": enc}, b"hello")
+                for i, r in enumerate(d["recs"]):
+                    obj.add_recipient({"alg": r["alg"], "kid": "r%d" % i}, keys[i] if r["pre"] else None)
+                return jwe.encrypt_json(obj, keyarg, algorithms=algs, sender_key=sender)
+        else:
+            try:
+                obj = GeneralJSONEncryption({"enc": enc}, b"hello")
+                refsender = None
+                for i, r in enumerate(d["recs"]):
+                    rk = r["refkind"]
+                    obj.add_recipient({"alg": r["alg"], "kid": "r%d" % i},
+                                      self.mats.key(rk[0], rk[1], "a", rk[0] == "oct", None))
+                    if jwe_family(r["alg"]) == "1PU":
+                        refsender = self.mats.key(rk[0], rk[1], "b", True, None)
+                token = jwe.encrypt_json(obj, None, algorithms=algs, sender_key=refsender)
+            except Exception:      # joserfc cannot produce such a token
+                return None
+            reg = JWERegistry(algorithms=algs, verify_all_recipients=d["va"])
+
+            def f():
+                return jwe.decrypt_json(json.loads(json.dumps(token)), keyarg, registry=reg, sender_key=sender)
+        out, exc = outcome(f)
+        return out, exc, {"infos": infos, "sinfo": sinfo, "mats": mats_ok, "epks": epks}
+
+
+def c_mrec(r, info, epk, mat):
+    return "{| m_alg := %s; m_key := %s; m_pre := %s; m_epk := %s; m_mat := %s |}" % (
+        c_s(r["alg"]), c_key(info), c_bool(r["pre"]), c_epk(epk), c_bool(mat))
+
+
+def judge_multi(d, out, args):
+    """success => every recipient key is suitable (encrypt, or verify_all_recipients); without
+    verify_all_recipients: the plaintext must come from a suitable key with the right material"""
+    if out != "ok":
+        return None
+    ok = []
+    for r, info, epk, m in zip(d["recs"], args["infos"], args["epks"], args["mats"]):
+        good = (jwe_kind_suitable(r["alg"], d["encrypt"], d["enc"], info, args["sinfo"], epk) and use_ok(info, "enc")
+                and (args["sinfo"] is None or use_ok(args["sinfo"], "enc")))
+        if not d["encrypt"]:
+            good = good and m
+        ok.append(good)
+    if d["encrypt"] or d["va"]:
+        return None if all(ok) else "jwe-multi-unsuitable-recipient-key-accepted"
+    return None if any(ok) else "jwe-multi-plaintext-without-suitable-key"
+
+
 def c_epk(epk):
     if epk is None:
         return '{| epk_kty := KEc; epk_crv := ""%string |}'
@@ -675,7 +913,7 @@ def unsafe_texts(mats, rng):
     for kty, p in KINDS:
         if kty == "oct":
             continue
-        prv, pub = mats.m[(kty, p, "a")]
+        prv, pub = mats.get(kty, p, "a")
         jk_prv = mats.key(kty, p, "a", True, None)
         label = "%s-%s" % (kty, p)
         out.append((label + " joserfc as_pem private", jk_prv.as_pem(private=True), True))
@@ -729,6 +967,14 @@ def import_warns(text, as_str=False):
 
 # ----------------------------------------------------------------------------------
 def describe(d):
+    if d.get("fam") == "jwem":
+        return "%s json general enc=%s verify_all=%s keys via %s [%s]%s%s" % (
+            "encrypt" if d["encrypt"] else "decrypt", d["enc"], d["va"], d["src"],
+            "; ".join("%s: %s/%s %s use=%r key_ops=%r%s" % (r["alg"], r["kind"][0], r["kind"][1],
+                                                          "private" if r["private"] else "public", r["use"], r["ops"],
+                                                          " pre-attached" if r["pre"] else "") for r in d["recs"]),
+            (" sender=%s/%s use=%r" % (d["sender"]["kind"][0], d["sender"]["kind"][1], d["sender"]["use"])) if d["sender"] else "",
+            " (offender: %s at %s%s)" % (d["gate"], d["pos"], ", " + d["variant"] if d["variant"] else "") if d["gate"] else "")
     s = "%s alg=%s%s key=%s/%s %s use=%r key_ops=%r alg=%r via %s" % (
         d["entry"], d["alg"], (" enc=" + d["enc"]) if d.get("enc") else "", d["kind"][0], d["kind"][1],
         "private" if d["private"] else "public", d["use"], d["ops"], d["kalg"], d["src"])
@@ -737,17 +983,18 @@ def describe(d):
                                    "private" if d["sender"]["private"] else "public")
     if d.get("variant"):
         s += " [" + d["variant"] + "]"
+    if d.get("via", "native") != "native":
+        s += " (imported via %s)" % d["via"]
     return s
 
 
-def export_mats(mats, d):
-    """JWKs of the materials a descriptor uses (so that a replay re-runs the very same call)"""
-    need = {(d["kind"][0], d["kind"][1], d["tag"])}
-    for kty, p in KINDS:
-        need.add((kty, p, "a"))
-        need.add((kty, p, "b"))
+def export_mats(mats, d=None):
+    """JWKs of the materials of this run (so that a replay re-runs the very same call)"""
     out = {}
-    for (kty, p, tag) in need:
+    for (kty, p, tag) in list(mats.m):
+        if kty == "oct" and p == 0:
+            out["%s|%s|%s" % (kty, p, tag)] = {"kty": "oct", "k": ""}
+            continue
         k = mats.key(kty, p, tag, True, None)
         out["%s|%s|%s" % (kty, p, tag)] = k.as_dict(private=True)
     return out
@@ -755,12 +1002,16 @@ def export_mats(mats, d):
 
 class ReplayMats(Mats):
     def __init__(self, jwks):
-        from joserfc.jwk import OctKey, RSAKey, ECKey, OKPKey
-        self.cls = {"oct": OctKey, "RSA": RSAKey, "EC": ECKey, "OKP": OKPKey}
-        self.m = {}
+        import random
+        Mats.__init__(self, random.Random(0))
         for name, jwk in jwks.items():
             kty, p, tag = name.split("|")
             p = int(p) if kty in ("oct", "RSA") else p
+            if kty == "oct":
+                from joserfc.util import urlsafe_b64decode
+                raw = urlsafe_b64decode(jwk["k"].encode())
+                self.m[(kty, p, tag)] = (raw, raw)
+                continue
             k = self.cls[kty].import_key(jwk)
             self.m[(kty, p, tag)] = (k.private_key, k.public_key)
 
@@ -801,7 +1052,7 @@ def run(ctx):
     cand = {}
     verdicts = {}
 
-    descs = gen_jws(ctx) + gen_jwe(ctx)
+    descs = gen_jws(ctx) + gen_jwe(ctx) + gen_multi(ctx)
     if ctx.quick:
         # thin the product: every (entry, alg) keeps its suitable key; each defect stays on about half of the
         # entry points (the entry points of one family share the defect list, so every defect is still
@@ -810,13 +1061,14 @@ def run(ctx):
         for d in descs:
             first = (d["entry"], d["alg"]) not in seen
             seen.add((d["entry"], d["alg"]))
-            if first or d.get("variant") == "pubmac" or rng.random() < 0.5:
+            if first or d.get("variant") == "pubmac" or d.get("must") or rng.random() < 0.5:
                 keep.append(d)
         descs = keep
     exported = None
     for d in descs:
-        r = runner.run_jws(d) if d["fam"] == "jws" else runner.run_jwe(d)
+        r = {"jws": runner.run_jws, "jwe": runner.run_jwe, "jwem": runner.run_multi}[d["fam"]](d)
         if r is None:
+            dist["skipped"] = dist.get("skipped", 0) + 1
             continue
         out, exc, args = r
         key = json.dumps(d, sort_keys=True)
@@ -830,7 +1082,12 @@ def run(ctx):
         if d["fam"] == "jws" and d["alg"] == "PS512" and d["kind"] == ["RSA", 1024] and out == "EValue":
             dist["primitive_limit_skipped"] = dist.get("primitive_limit_skipped", 0) + 1
             continue            # PSS-SHA512 does not fit a 1024-bit modulus: the primitive's own ValueError
-        if d["fam"] == "jws":
+        if d["fam"] == "jwem":
+            term = "CJweMulti %s %s %s %s %s %s %s" % (
+                c_bool(d["encrypt"]), c_bool(d["va"]), d["src"], c_s(d["enc"]),
+                c_list([c_mrec(r, i, e, m) for r, i, e, m in zip(d["recs"], args["infos"], args["epks"], args["mats"])]),
+                c_opt(args["sinfo"], c_key), c_res(out))
+        elif d["fam"] == "jws":
             term = "CJws %s %s %s %s %s %s %s" % (d["entry"], d["src"], c_s(d["alg"]), c_key(args["info"]),
                                                  c_bool(args["mat"]), c_N(max(args["siglen"], 0)), c_res(out))
         else:
@@ -839,13 +1096,13 @@ def run(ctx):
                 c_opt(args["sinfo"], c_key), c_epk(args["epk"]), c_bool(args["mat"]), c_res(out))
         cases.append(term)
         meta.append((d, out))
-        v = judge(d, out, args)
+        v = judge_multi(d, out, args) if d["fam"] == "jwem" else judge(d, out, args)
         if v and v.startswith("candidate:"):
             cand[v] = cand.get(v, 0) + 1
         elif v:
             ctx.violation({"kind": v, "entry": d["entry"], "alg": d["alg"]},
                           "the call succeeded with an unsuitable key: " + describe(d),
-                          {"desc": d, "jwks": export_mats(mats, d), "outcome": out})
+                          {"desc": d, "jwks": export_mats(mats), "outcome": out})
 
     # ---- the gates themselves, directly on Key objects
     ngate = 0
@@ -966,8 +1223,8 @@ def run(ctx):
         d, out = meta[i]
         rep = {"case": cases[i], "desc": d, "impl_outcome": out, "no_failing_input_found": direct == 0,
                "broken": "correspondence model/C06Model.v vs joserfc"}
-        if d.get("fam") in ("jws", "jwe"):
-            rep["jwks"] = export_mats(mats, d)
+        if d.get("fam") in ("jws", "jwe", "jwem"):
+            rep["jwks"] = export_mats(mats)
             what = describe(d)
         else:
             what = json.dumps(d)[:200]
@@ -1006,13 +1263,13 @@ def replay(path):
         print("OctKey.import_key(%r...) warned: %s" % (text[:40], w))
         return 0 if w else 1
     d = rep.get("desc")
-    if not d or d.get("fam") not in ("jws", "jwe") or "jwks" not in rep:
+    if not d or d.get("fam") not in ("jws", "jwe", "jwem") or "jwks" not in rep:
         print("see the replay file for the failing case")
         return 1
     runner = Runner(ReplayMats(rep["jwks"]))
-    out, exc, args = runner.run_jws(d) if d["fam"] == "jws" else runner.run_jwe(d)
+    out, exc, args = {"jws": runner.run_jws, "jwe": runner.run_jwe, "jwem": runner.run_multi}[d["fam"]](d)
     print("outcome:", out, repr(exc) if exc else "")
-    v = judge(d, out, args)
+    v = judge_multi(d, out, args) if d["fam"] == "jwem" else judge(d, out, args)
     print("direct oracle:", v)
     if r["signature"].get("kind") == "correspondence":
         print("recorded implementation outcome was:", rep.get("impl_outcome"))
